@@ -736,6 +736,54 @@ example :
        500000, 10000, 10000]).rel = 0 := by
   set_option maxRecDepth 8000 in decide
 
+/-- **C10 (from rest to the target, downward)** the two halves joined: a calibrated shutter at rest (start gate passed) with an
+    active task towards a target below its estimate — the first callback starts the motor, and for every further sequence of
+    callbacks whose total duration reaches the travel to the end stop plus the task's margin the motor is off again with the
+    estimate at or beyond the target, never having moved back -/
+theorem c10_from_rest_converges_down (P : RsP) (hfc : 10 ≤ P.fc)
+    (hcap : P.fc / 10 + 1 + 10 * P.fc * (taskMargin P + 1) ≤ 600000000) (s : RsT) (dt : Nat) (dts : List Nat)
+    (h0 : s.tstate = 1 ∧ s.rel = 0 ∧ s.pend = 0 ∧ 100 ≤ s.pos ∧ s.pos ≤ 10100 ∧ s.sinceStop ≥ startGate + s.lag)
+    (hb : s.pos - 100 < s.target * 100) (htg100 : s.target ≤ 100)
+    (hg : ¬ (P.margin = 0 ∧ reportedPos s.pos = 100)) (hne : dts ≠ [])
+    (hlong : 10100 * (P.fc * 1000) + P.fc * 1000 + 10000 + 100000 * P.fc * (taskMargin P + 1)
+               ≤ s.pos * (P.fc * 1000) + 10000 * C09.sum dts) :
+    Stopped (rsRun P s (dt :: dts)) ∧ (rsRun P s (dt :: dts)).pos - 100 ≥ s.target * 100 ∧
+    s.pos ≤ (rsRun P s (dt :: dts)).pos := by
+  obtain ⟨hm, hp, hd, ht⟩ := task_start_down P s dt h0 hb hg
+  have hpsi : psi P (rsTick P s dt) = s.pos * (P.fc * 1000) := by unfold psi; rw [hp, hd]; omega
+  have r := c10_task_converges_down P hfc hcap (rsTick P s dt) hm (by rw [ht]; omega) (by rw [ht]; exact htg100) dts hne
+    (by rw [hpsi]; exact hlong)
+  rw [ht, hp] at r
+  simpa only [rsRun] using r
+
+/-- **C10 (from rest to the target, upward)** the mirror statement -/
+theorem c10_from_rest_converges_up (P : RsP) (hfo : 10 ≤ P.fo)
+    (hcap : P.fo / 10 + 1 + 10 * P.fo * (taskMargin P + 1) ≤ 600000000) (s : RsT) (dt : Nat) (dts : List Nat)
+    (h0 : s.tstate = 1 ∧ s.rel = 0 ∧ s.pend = 0 ∧ 100 ≤ s.pos ∧ s.pos ≤ 10100 ∧ s.sinceStop ≥ startGate + s.lag)
+    (hb : s.pos - 100 > s.target * 100)
+    (hg : ¬ (P.margin = 0 ∧ reportedPos s.pos = 0)) (hne : dts ≠ [])
+    (hlong : 10000 * (P.fo * 1000) + P.fo * 1000 + 10000 + 100000 * P.fo * (taskMargin P + 1)
+               ≤ (10100 - s.pos) * (P.fo * 1000) + 10000 * C09.sum dts) :
+    Stopped (rsRun P s (dt :: dts)) ∧ (rsRun P s (dt :: dts)).pos - 100 ≤ s.target * 100 ∧
+    (rsRun P s (dt :: dts)).pos ≤ s.pos := by
+  obtain ⟨hm, hp, hu, ht⟩ := task_start_up P s dt h0 hb hg
+  have hpsi : psiU P (rsTick P s dt) = (10100 - s.pos) * (P.fo * 1000) := by unfold psiU; rw [hp, hu]; omega
+  have r := c10_task_converges_up P hfo hcap (rsTick P s dt) hm (by rw [ht]; omega) dts hne
+    (by rw [hpsi]; exact hlong)
+  rw [ht, hp] at r
+  simpa only [rsRun] using r
+
+/-- the premises of the from-rest theorems are met by a fresh request on a calibrated shutter at rest: `addTask` on a state
+    with both outputs off and a reported position different from the request yields exactly `tstate = 1`, the new
+    target and untouched outputs -/
+theorem c10_addTask_from_rest (s : RsT) (g : Nat) (hrel : s.rel = 0)
+    (hne : reportedPos s.pos ≠ (g : Int)) :
+    (addTask s g).tstate = 1 ∧ (addTask s g).target = g ∧ (addTask s g).rel = 0 ∧ (addTask s g).pos = s.pos ∧
+    (addTask s g).pend = s.pend ∧ (addTask s g).sinceStop = s.sinceStop ∧ (addTask s g).lag = s.lag := by
+  unfold addTask
+  rw [if_neg (by intro h; exact hne h.1)]
+  simp [hrel]
+
 /-- **C10 (the newest request wins)** a request made while the shutter is on its way somewhere else (a task running or an
     output energised) always becomes the task - also when the reported position happens to equal the requested one at
     that moment (before the repair in /repo such a request was ignored and the shutter ran on to the old target) -/
